@@ -51,7 +51,7 @@ def _enum(tag, env, wd):
 def _sim(tag, n, seed, wd):
     outdir = os.path.join(wd, "sim_" + tag)
     os.makedirs(outdir, exist_ok=True)
-    res = vlib.tlc(MODULE, cfg=CFG_SIM, env={"OUTDIR": outdir, "C30_STRLEN": 0, "C30_LINES": 0, "C30_RICH": 1}, simulate=n, depth=3,
+    res = vlib.tlc(MODULE, cfg=CFG_SIM, env={"OUTDIR": outdir, "C30_STRLEN": 0, "C30_LINES": 0, "C30_RICH": 1, "C30_FAMS": "all"}, simulate=n, depth=3,
                    seed=seed, timeout=900, workers=1, xmx="3g", metadir=os.path.join(wd, "meta_" + tag))
     vlib.tlc_ok(res, "C30 sample")
     header = [decode(r) for r in res.cases() if r.get("header")]
@@ -73,7 +73,9 @@ def run(prop, tier, seed):
     wd = vlib.workdir(prop)
     quick = tier == "quick"
     # one TLC process at a time (shared machine)
-    results = [_enum("e", {"C30_STRLEN": 2 if quick else 3, "C30_LINES": 2, "C30_RICH": 0 if quick else 1}, wd)]
+    results = [_enum("e", {"C30_STRLEN": 2 if quick else 3, "C30_LINES": 2, "C30_RICH": 0 if quick else 1, "C30_FAMS": "all"}, wd)]
+    if not quick:
+        results.append(_enum("f", {"C30_STRLEN": 0, "C30_LINES": 3, "C30_RICH": 0, "C30_FAMS": "block"}, wd))
     for k in range(1 if quick else 2):
         results.append(_sim("s%d" % k, 10 if quick else 200, seed * 16 + k, wd))
     header = results[0][0]
@@ -149,7 +151,8 @@ def run(prop, tier, seed):
                 "non-trivial; distinct = distinct source lines. Exhaustive part: every `_` placement in 8 digit strings of <= 8 "
                 "digits, 15 boundary magnitudes x 3 placements, each negated and not; %d numerators x %d binary exponents x 5 spelling "
                 "variants x sign of exactly representable floats; every string of length <= %d over a 12-character alphabet x "
-                "{\"..\", '..', \"\"\"..\"\"\"} x {raw, escaped}; every in-model multi-line layout with <= 2 lines. Sample part: "
+                "{\"..\", '..', \"\"\"..\"\"\"} x {raw, escaped}; every in-model multi-line layout with <= 2 lines (thorough: also <= 3 lines over the smaller "
+                "indentation/line sets). Sample part: "
                 "tlc -simulate seed %d (random 1-20 digit integers, random dyadic floats, strings of length 3-7, layouts of 2-4 lines)"
                 % (7 if quick else 13, 4 if quick else 6, 2 if quick else 3, seed),
         "exhaustive": True, "exhaustive_items": len(exh), "sampled_items": len(items) - len(exh),
